@@ -205,7 +205,7 @@ impl Check for C15 {
         }
         // random long histories from every kind of starting value
         let mut r = g.rng(15);
-        let n = g.count(20_000, 500_000);
+        let n = g.count(60_000, 3_000_000);
         for k in 0..n {
             emit(Case::with("history", vec![], &[r.next() as i64, 200, k as i64 % 7]));
         }
